@@ -36,8 +36,8 @@ Qed.
 
 Lemma observe_equiv : forall s1 s2, sequiv s1 s2 -> observe s1 = observe s2.
 Proof.
-  intros [d1 m1 b1] [d2 m2 b2] (Hd & _ & Hb & Hr & _ & _ & Hh & _ & Hs & Hbal & _ & Ht). cbn in *. subst d2 b2.
-  unfold observe, mem_balance. cbn. rewrite Hh, Hs, Hbal, Ht. f_equal.
+  intros [d1 m1 b1 g1] [d2 m2 b2 g2] (Hd & _ & Hb & _ & Hr & _ & _ & Hh & _ & Hs & Hbal & Hv & Ht). cbn in *. subst d2 b2.
+  unfold observe, volumes, mem_balance, vol_ready. cbn. rewrite Hh, Hs, Hbal, Hv, Ht. f_equal.
   apply map_ext. intros c. f_equal. apply Hr.
 Qed.
 
@@ -49,12 +49,12 @@ Lemma step_equiv : forall s1 s2 o,
   sequiv s1 s2 ->
   snd (step s1 o) = snd (step s2 o) /\ sequiv (fst (step s1 o)) (fst (step s2 o)).
 Proof.
-  intros [d [r1 h1 t1 st1 bl1 v1 tp1] b] [d2 [r2 h2 t2 st2 bl2 v2' tp2] b2] o
-         (Hd & Nd & Hb & Hr & N1 & N2 & Hh & Pt & Hs & Hbal & Hv & Ht).
-  cbn [db mem budgets m_roots m_hooks m_tree m_settings m_bal m_vols m_tip] in *. subst.
-  destruct o; cbn [step db mem budgets m_roots m_hooks m_tree m_settings m_bal m_vols m_tip fst snd].
+  intros [d [r1 h1 t1 st1 bl1 v1 tp1] b g] [d2 [r2 h2 t2 st2 bl2 v2' tp2] b2 g2] o
+         (Hd & Nd & Hb & Hg & Hr & N1 & N2 & Hh & Pt & Hs & Hbal & Hv & Ht).
+  cbn [db mem budgets gone m_roots m_hooks m_tree m_settings m_bal m_vols m_tip] in *. subst.
+  destruct o; cbn [step db mem budgets gone m_roots m_hooks m_tree m_settings m_bal m_vols m_tip fst snd].
   - split; [reflexivity | eqv].
-  - split; [reflexivity|]. eqv; try (apply aset_nodup; assumption).
+  - cbn zeta. rewrite (Hr c). split; [reflexivity|]. eqv; try (apply aset_nodup; assumption).
     intros c'. rewrite !roots_of_aset. destruct (c' =? c)%N; auto.
   - split; [reflexivity|]. rewrite (Hr old).
     assert (NoDup (map fst (aset new (roots_of r2 old) r1))) as A1 by (apply aset_nodup; exact N1).
@@ -82,9 +82,13 @@ Proof.
     + destruct (close_budget bl2 a (mx - spend)%N); split; try reflexivity; eqv.
   - destruct (alookup b b2) as [[a mx]|]; [|split; [reflexivity | eqv]].
     destruct (close_budget bl2 a mx); split; try reflexivity; eqv.
-  - split; [reflexivity | eqv].
+  - destruct (alookup id (d_vols d2)); split; try reflexivity; eqv.
   - destruct (alookup id (d_vols d2)) as [[[r0 t0] a0]|]; [|split; [reflexivity | eqv]].
-    destruct (existsb (N.eqb id) v2'); split; try reflexivity; eqv.
+    unfold vol_ready. cbn [m_vols]. destruct (alookup id v2') as [[|]|]; split; try reflexivity; eqv.
+  - destruct (alookup id (d_vols d2)) as [[[r0 t0] a0]|]; [|split; [reflexivity | eqv]].
+    unfold vol_ready. cbn [m_vols]. destruct (alookup id v2') as [[|]|]; split; try reflexivity; eqv.
+  - split; [reflexivity | eqv].
+  - split; [reflexivity | eqv].
   - split; [|eqv]. apply observe_equiv. eqv.
   - split; [reflexivity|]. unfold restart, load. cbn. eqv.
   - split; [reflexivity | eqv].
@@ -98,10 +102,13 @@ Qed.
 
 Lemma restart_sequiv : forall s, coh s -> budgets s = [] -> sequiv (restart s) s.
 Proof.
-  intros [d m bs] (Hr & Nd & Nm & Hh & Nh & Ht & Hs & (Hc & Hf) & Hv & Htip) Hq.
-  cbn [db mem budgets] in *. subst bs.
+  intros s [H0 Hfl] Hq. pose proof (restart_db s Hfl) as Hdb.
+  destruct s as [d m bs g]. destruct H0 as (Hr & Nd & Nm & Hh & Nh & Ht & Hs & (Hc & Hf) & Hv & Htip).
+  cbn [db mem budgets gone] in *. subst bs.
   assert (m_bal m = []) as Hb by (apply no_budget_no_entry; [exact Hc | exact Hf]).
-  unfold sequiv, mequiv, restart, load. cbn. repeat split; auto.
+  assert (mem (restart {| db := d; mem := m; budgets := []; gone := g |}) = load d) as Hm.
+  { unfold restart in *. cbn [db mem] in *. rewrite Hdb. reflexivity. }
+  unfold sequiv. rewrite Hm, Hdb. unfold mequiv, load. cbn. repeat split; auto.
   eapply tree_inv_perm; [apply build_tree_inv; exact Nh | rewrite <- Hh; exact Ht].
 Qed.
 
